@@ -219,9 +219,67 @@ pub fn gen_once(file: &str) -> i32 {
     }
 }
 
+/// Regression probe (seeded change C06f): several attributes that share their NAME on one type, and a recursive
+/// derive on a generic type with two instantiations (C06c/C06e); 40 observations with freshly built settings.
+fn probe_same_named_attributes() -> Result<(), Failure> {
+    use crate::program::*;
+    let fld = |n: &str, t: Ty| FieldDef { name: Some(n.into()), ty: t, compact_attr: false, docs: vec![] };
+    let p = |n: &str| ParamDecl { name: n.into(), skipped: false, config: false, compactable: false, bitstore: false, bitorder: false };
+    let sdef = |name: &str, params: Vec<ParamDecl>, f: Vec<FieldDef>| Def {
+        path: vec!["krate".into(), name.into()],
+        params,
+        docs: vec![],
+        body: Body::Struct(Fields::Named(f)),
+        config_inner: None,
+    };
+    let prog = Program {
+        name_style: 0,
+        defs: vec![
+            sdef("A", vec![], vec![fld("x", Ty::Prim(Prim::U8))]),
+            sdef("B", vec![], vec![fld("y", Ty::Prim(Prim::U16))]),
+            sdef("W", vec![p("T")], vec![fld("inner", Ty::Param(0))]),
+            sdef("Root", vec![], vec![fld("a", Ty::Def(2, vec![Ty::Def(0, vec![])])), fld("b", Ty::Def(2, vec![Ty::Def(1, vec![])]))]),
+        ],
+        roots: vec![Ty::Def(3, vec![])],
+    };
+    let low = crate::lower::lower(&prog);
+    let mut spec = SettingsSpec::default();
+    spec.global_attrs = vec![
+        "#[serde(crate = \"x\")]".into(),
+        "#[serde(rename_all = \"camelCase\")]".into(),
+        "#[allow(dead_code)]".into(),
+        "#[allow(unused)]".into(),
+        "#[serde(deny_unknown_fields)]".into(),
+    ];
+    spec.global_derives = vec!["Debug".into(), "Clone".into(), "Eq".into(), "PartialEq".into()];
+    spec.specific = vec![
+        PathReg { path: "krate::W".into(), derives: vec!["Hash".into()], attrs: vec!["#[serde(transparent)]".into()], recursive: true },
+        PathReg { path: "krate::Root".into(), derives: vec!["Zeta".into()], attrs: vec!["#[allow(missing_docs)]".into()], recursive: true },
+    ];
+    let first = observe(&low.registry, &spec).map_err(Failure::new)?;
+    for k in 0..40 {
+        let again = observe(&low.registry, &spec).map_err(Failure::new)?;
+        if again != first {
+            return Err(Failure::new(format!("observation {k} differs from the first one on equal inputs (fresh settings, fresh maps)"))
+                .sig("regress:same-named-attributes")
+                .with(json!({"program": prog.to_text(), "settings": spec.to_json(), "first": first.0, "again": again.0})));
+        }
+    }
+    let gm = crate::genmod::parse(&first.0).map_err(|e| Failure::new(format!("output does not parse: {e}")).sig("regress:same-named-attributes"))?;
+    sorted_check(&gm).map_err(|m| Failure::new(m).sig("regress:same-named-attributes"))?;
+    Ok(())
+}
+
 impl Property for C06 {
     fn id(&self) -> &'static str {
         "C06"
+    }
+    fn probes(&self) -> Vec<Probe> {
+        vec![Probe {
+            signature: "regress:same-named-attributes",
+            what: "five attributes with two names on every type + two recursive registrations reaching W<A> and W<B>, 40 fresh observations",
+            run: Box::new(probe_same_named_attributes),
+        }]
     }
     fn rule(&self) -> String {
         "tape -> registry (generated program with families, or a Polkadot sub-registry) + settings with >= 6 global derives, >= 4 attributes, \
